@@ -259,8 +259,18 @@ def r_bounds(ctx: RuleCtx, col: Collector):
                         f"'{U(arg)}' does not combine {'' if has_user else usr + ' '}{'' if has_move else cur + sign + 'move '}"
                         f"with element-wise {kind}imum: designs can leave the bounds / exceed the move limit")
         # current design updated to the clipped one
+        aliases = {newname}
+        grew = True
+        while grew and newname is not None:
+            grew = False
+            for a in ast.walk(oc.node):
+                if isinstance(a, ast.Assign) and len(a.targets) == 1 and isinstance(a.targets[0], ast.Name) and \
+                        isinstance(a.value, ast.Name) and a.value.id in aliases and a.targets[0].id not in aliases \
+                        and a.targets[0].id != cur:
+                    aliases.add(a.targets[0].id)       # plain copies of the clipped design (x = xnew)
+                    grew = True
         upd_ok = newname is not None and any(isinstance(a, ast.Assign) and isinstance(a.targets[0], ast.Name) and
-                                             a.targets[0].id == cur and isinstance(a.value, ast.Name) and a.value.id == newname
+                                             a.targets[0].id == cur and isinstance(a.value, ast.Name) and a.value.id in aliases
                                              for a in ast.walk(oc.node))
         if upd_ok:
             col.ok(where_of(oc), oc.rel, line_of(c), "minimize_oc: current design updated to the clipped design", f"{cur} = {newname}")
@@ -386,7 +396,7 @@ def r_mma_mem(ctx: RuleCtx, col: Collector):
                 else:
                     col.ok(where_of(upd), upd.rel, line_of(a), f"{newer} <- copy of the current design", U(vv))
     if not (found_new and found_old):
-        col.bad(where_of(upd), upd.rel, line_of(upd.node), "MMA memory shift", "assignments of the two memory slots not found")
+        raise AnalysisError(f"{upd.short}: assignments of the two memory slots not found")
 
 
 def _assigned_before(cfg: CFG, nd: Node, attr_text: str) -> bool:
@@ -458,10 +468,13 @@ def r_step_dep(ctx: RuleCtx, col: Collector):
         if not (isinstance(d, ast.Constant)):
             collect(d)
     lo, hi = bp
+    # a denominator may be named beforehand (xa = x - alfa): compare its definition
+    from .common import expand_names
+    dtext = {id(x): {norm(x.right), norm(expand_names(g.node, x.right))} for x in divs}
     for v, dv, node in pairs:
-        if any(norm(x.right) in (f"{v}-{lo}", f"{hi}-{v}") and _scaled(x.left, dv) for x in divs):
+        if any(dtext[id(x)] & {f"{v}-{lo}", f"{hi}-{v}"} and _scaled(x.left, dv) for x in divs):
             need = [f"{v}-{lo}", f"{hi}-{v}"]
-            have = [t for t in need if any(norm(x.right) == t and _scaled(x.left, dv) for x in divs)]
+            have = [t for t in need if any(t in dtext[id(x)] and _scaled(x.left, dv) for x in divs)]
             if len(have) == 2:
                 col.ok(where_of(g), g.rel, line_of(node), f"step length bounded by {dv}/({v}-{lo}) and {dv}/({hi}-{v})", "")
             else:
@@ -469,7 +482,7 @@ def r_step_dep(ctx: RuleCtx, col: Collector):
                         f"the step length does not depend on {sorted(set(need) - set(have))}: the iterate can step across "
                         f"that bound and leave the admissible interval")
             continue
-        if any(norm(x.right) == v and _scaled(x.left, dv) for x in divs):
+        if any(v in dtext[id(x)] and _scaled(x.left, dv) for x in divs):
             col.ok(where_of(g), g.rel, line_of(node), f"step length bounded by {dv}/{v}", "")
         else:
             col.bad(where_of(g), g.rel, line_of(node), f"step length bounded by {dv}/{v}",
@@ -576,9 +589,25 @@ def r_bisect(ctx: RuleCtx, col: Collector):
                     isinstance(x, ast.Name) and x.id == mid for x in ast.walk(n.value)) and n.targets[0].id != mid:
                 cand = n
         upd = None
+        upd_test = None
+        br_true: Dict[str, str] = {}
+        br_false: Dict[str, str] = {}
         for n in lp.body:
             if isinstance(n, ast.Assign) and isinstance(n.targets[0], ast.Tuple) and isinstance(n.value, ast.IfExp):
-                upd = n
+                # lo, hi = (mid, hi) if <test> else (lo, mid)
+                upd, upd_test = n, n.value.test
+                tn_ = [norm(x) for x in n.targets[0].elts]
+                for br, v in ((br_true, n.value.body), (br_false, n.value.orelse)):
+                    if isinstance(v, ast.Tuple) and len(v.elts) == len(tn_):
+                        br.update(dict(zip(tn_, [norm(x) for x in v.elts])))
+            elif isinstance(n, ast.If) and n.orelse and all(
+                    isinstance(x, ast.Assign) and len(x.targets) == 1 and norm(x.targets[0]) in (lo, hi) for x in n.body + n.orelse):
+                # if <test>: lo = mid / else: hi = mid   (an end that is not assigned keeps its value)
+                upd, upd_test = n, n.test
+                for br, blk in ((br_true, n.body), (br_false, n.orelse)):
+                    br.update({lo: lo, hi: hi})
+                    for x in blk:
+                        br[norm(x.targets[0])] = norm(x.value)
         if cand is None or upd is None:
             raise AnalysisError("minimize_oc: bisection candidate / bracket update not recognised")
         # the bracket is re-initialised from the caller's initial values in every outer iteration
@@ -627,7 +656,7 @@ def r_bisect(ctx: RuleCtx, col: Collector):
                     assume.append(f"the design vector {x0.id} is non-negative (densities)")
         mo, _ = _mono(cand.value, mid, signs, assume)
         # volume measure: the test of the IfExp: sum(cand) - maxvol > 0
-        test = upd.value.test
+        test = upd_test
         tm, _ = _mono(test.left if isinstance(test, ast.Compare) else test, cand.targets[0].id, {}, assume)
         construct = f"bisection update '{stmt_key(upd)}'"
         if mo is None or tm is None:
@@ -639,12 +668,7 @@ def r_bisect(ctx: RuleCtx, col: Collector):
         gt = isinstance(test, ast.Compare) and isinstance(test.ops[0], (ast.Gt, ast.GtE))
         direction = mo * tm            # measure monotonicity in mid
         # too large & decreasing in mid => raise mid => new bracket (mid, hi)
-        body, orelse = upd.value.body, upd.value.orelse
-        tnames = [norm(x) for x in upd.targets[0].elts]
-
-        def new_bracket(v):
-            return dict(zip(tnames, [norm(x) for x in v.elts])) if isinstance(v, ast.Tuple) else {}
-        when_true, when_false = new_bracket(body), new_bracket(orelse)
+        when_true, when_false = br_true, br_false
         if not gt:
             when_true, when_false = when_false, when_true
         want_true = (lo, mid) if direction < 0 else (hi, mid)     # which end moves when the measure is too large
